@@ -138,8 +138,18 @@ type ListConfig struct {
 type NumberingManager struct {
 	nextAbstractNumID int
 	nextNumID         int
-	abstractNums      map[string]*AbstractNum
+	abstractNums      map[abstractNumKey]*AbstractNum
 	numInstances      map[string]*NumInstance
+}
+
+// abstractNumKey 抽象编号定义的缓存键：完整的请求（类型、符号、级别、起始编号）。
+// 使用结构体而不是拼接的字符串，这样不同的请求不会得到相同的键
+// （类型或符号中含有分隔符时，拼接的字符串可能相同）。
+type abstractNumKey struct {
+	Type         ListType
+	BulletSymbol BulletType
+	IndentLevel  int
+	StartNumber  int
 }
 
 // clone 复制编号管理器（计数器和注册表；已注册的定义创建后不再修改，可以共享）
@@ -150,7 +160,7 @@ func (m *NumberingManager) clone() *NumberingManager {
 	c := &NumberingManager{
 		nextAbstractNumID: m.nextAbstractNumID,
 		nextNumID:         m.nextNumID,
-		abstractNums:      make(map[string]*AbstractNum, len(m.abstractNums)),
+		abstractNums:      make(map[abstractNumKey]*AbstractNum, len(m.abstractNums)),
 		numInstances:      make(map[string]*NumInstance, len(m.numInstances)),
 	}
 	for k, v := range m.abstractNums {
@@ -169,7 +179,7 @@ func (d *Document) getNumberingManager() *NumberingManager {
 		d.numberingManager = &NumberingManager{
 			nextAbstractNumID: 0,
 			nextNumID:         1,
-			abstractNums:      make(map[string]*AbstractNum),
+			abstractNums:      make(map[abstractNumKey]*AbstractNum),
 			numInstances:      make(map[string]*NumInstance),
 		}
 	}
@@ -298,7 +308,12 @@ func (d *Document) getOrCreateNumbering(config *ListConfig) string {
 	manager := d.getNumberingManager()
 
 	// 生成抽象编号键（包含起始编号：起始编号不同的请求不能共用同一个定义）
-	abstractKey := fmt.Sprintf("%s_%s_%d_%d", config.Type, config.BulletSymbol, config.IndentLevel, config.StartNumber)
+	abstractKey := abstractNumKey{
+		Type:         config.Type,
+		BulletSymbol: config.BulletSymbol,
+		IndentLevel:  config.IndentLevel,
+		StartNumber:  config.StartNumber,
+	}
 
 	// 检查是否已存在抽象编号
 	var abstractNum *AbstractNum
